@@ -365,7 +365,10 @@ def run_history(ctx, items, plan, mode, case):
                         parent = type("VfParentPalette%d" % _UNIQ[0], (Palette,), {"SYNTAX_DEFAULTS": dict(new)})
                         body = {"PARENT_PALETTES": [parent]}
                         body.update({acc: ConfColor(sid) for acc, sid in accessors.items()})
-                    pcls = type("VfPalette%d" % _UNIQ[0], (Palette,), body)
+                    # (half of the histories give all their component classes one and the same name, as a class
+                    # factory or a re-executed class statement does)
+                    pcls = type("VfPalette" if plan.get("same_class_names") else "VfPalette%d" % _UNIQ[0],
+                                (Palette,), body)
                     if kind == "palette-compound":
                         # ... or in a palette class that is only reached as a sub-palette of a compound palette
                         comp = type("VfCompound%d" % _UNIQ[0], (akcolor.CompoundPalette,), {"SUB_PALETTES_MAP": {}})
@@ -451,10 +454,39 @@ def make_plan(rng, items, mode):
         pool = [i for i in items if not items[i].get('late')]
         swap = [i for i in pool if items[i]['initial_only'] or rng.random() < 0.4]
     return {"init": init, "batches": batches, "early_palette": rng.random() < 0.5, "swap": swap,
-            "plain_global_palette": rng.random() < 0.3, "stable_no_color": rng.random() < 0.7}
+            "plain_global_palette": rng.random() < 0.3, "stable_no_color": rng.random() < 0.7,
+            "same_class_names": rng.random() < 0.5}
+
+
+def long_chain_case(ctx, n=1500):
+    """a reference chain of n links, registered in three batches with the root in the last one: when it arrives
+    the whole chain is pending, and the id that sorts first is the one farthest from the root"""
+    ctx.evaluated()
+    ids = ["LC.N%04d" % k for k in range(n)]
+    descr = {ids[k]: ids[k + 1] for k in range(n - 1)}
+    descr[ids[-1]] = "RED/BLUE:bold"
+    case = {"kind": "long-chain", "links": n}
+    try:
+        conf = ColorsConfig({})
+        conf.add_new_items({k: descr[k] for k in ids[n // 3: 2 * n // 3]}, "middle")
+        conf.add_new_items({k: descr[k] for k in ids[: n // 3]}, "far end")
+        conf.add_new_items({k: descr[k] for k in ids[2 * n // 3:]}, "root part")
+        want = (('c', 1), ('c', 4), frozenset(['bold']))
+        for k in (ids[0], ids[n // 2], ids[-1]):
+            got = shown_state(conf.get_color(k))
+            ctx.count("formatter_checks")
+            if got != want:
+                ctx.violation("formatter-differs-from-resolved-description",
+                              {"id": k, "chain_links": n, "shown": repr(got), "expected": repr(want)}, case)
+                return
+        ctx.count("long_reference_chains_resolved")
+    except (Exception, RecursionError) as err:
+        ctx.violation("registration-raises", {"type": type(err).__name__, "msg": str(err)[:120], "chain_links": n}, case)
 
 
 def run_shard(ctx):
+    if ctx.shard == 0:
+        long_chain_case(ctx)
     for i in range(ctx.cases):
         rng = ctx.rng(i)
         mode = "global" if i % 10 == 3 else "no_color" if i % 10 == 7 else "local"
@@ -480,5 +512,12 @@ def run_shard(ctx):
 
 
 def replay(ctx, case):
+    if case.get("kind") == "long-chain":
+        long_chain_case(ctx, case["links"])
+        return
+    _replay(ctx, case)
+
+
+def _replay(ctx, case):
     ctx.evaluated()
     run_history(ctx, case["items"], case["plan"], case["mode"], case)
